@@ -2,7 +2,8 @@
 C15 — a long-lived engine renders what a fresh engine would after any file edits.
 Model: Vuego/Model/Cache.lean. Quantifier: every history of writes (create / edit / recreate / make invalid), deletes and renders, of any length,
 over any files, with any parser — under the cache's documented proviso that a content change comes with a modification time not used for that
-file before (and not the zero time).
+file before. The zero time is a time like any other since fix `4453083`: a file whose modification time BECAME zero (an override deleted from
+the upper layer of an overlay, revealing an embedded default) is re-read; the pinned rule answered from the stale entry.
 -/
 import Vuego.Model.Cache
 import Vuego.Generated.CacheFacts
@@ -14,20 +15,23 @@ variable {C D : Type}
 /-- the source treats a failed Stat as a miss (read from loadCachedWithFrontMatter's hit condition) -/
 theorem source_stat_failure_is_miss : Generated.cacheStatFailureIsMiss = true := by decide
 
+/-- the source answers from an entry only when the recorded modification time EQUALS the current one; a current time of zero is no wildcard -/
+theorem source_zero_mtime_is_no_wildcard : Generated.cacheZeroMtimeIsHit = false := by decide
+
 /-- the function has exactly two successful exits: the hit (the entry, under the condition above) and the miss (what this call has just read
     and parsed); a third way of answering — e.g. re-stamping an old entry because "the body did not change" — is not there -/
 theorem source_two_ways_to_answer : Generated.cacheReturns = (2, 1, 1) := by decide
 
-/-- the cache's invariant: an entry was produced from content that the file had at the recorded (non-zero) mtime; `hist n mt` remembers which
+/-- the cache's invariant: an entry was produced from content that the file had at the recorded mtime; `hist n mt` remembers which
     content file `n` had at mtime `mt` (every write records it) -/
 structure Inv (parse : C → Option D) (hist : Str → Nat → Option C) (s : State C D) : Prop where
-  entry : ∀ n d mt, s.cache n = some (d, mt) → mt ≠ 0 ∧ ∃ c, hist n mt = some c ∧ parse c = some d
-  file : ∀ n f, s.fs n = some f → f.mtime ≠ 0 ∧ hist n f.mtime = some f.content
+  entry : ∀ n d mt, s.cache n = some (d, mt) → ∃ c, hist n mt = some c ∧ parse c = some d
+  file : ∀ n f, s.fs n = some f → hist n f.mtime = some f.content
 
 /-- (1) answering from the cache gives the same result as re-reading; a failed load leaves no entry behind — one step -/
 theorem loadCached_eq_fresh (parse : C → Option D) (hist : Str → Nat → Option C) (s : State C D) (h : Inv parse hist s) (name : Str) :
-    (loadCached parse true s.fs s.cache name).1 = freshLoad parse s.fs name ∧
-    Inv parse hist { s with cache := (loadCached parse true s.fs s.cache name).2 } := by
+    (loadCached parse true false s.fs s.cache name).1 = freshLoad parse s.fs name ∧
+    Inv parse hist { s with cache := (loadCached parse true false s.fs s.cache name).2 } := by
   unfold loadCached freshLoad
   cases hfs : s.fs name with
   | none =>
@@ -37,9 +41,8 @@ theorem loadCached_eq_fresh (parse : C → Option D) (hist : Str → Nat → Opt
     | none => exact ⟨rfl, ⟨h.entry, h.file⟩⟩
     | some e => obtain ⟨d, cmt⟩ := e; simp only [Bool.false_eq_true, ↓reduceIte]; exact ⟨trivial, ⟨h.entry, h.file⟩⟩
   | some f =>
-    obtain ⟨hmt, hh⟩ := h.file name f hfs
+    have hh := h.file name f hfs
     simp only [Option.isNone_some, Bool.false_and, Bool.not_false, Bool.true_and]
-    have hz : (f.mtime == 0) = false := by simpa using hmt
     cases hc : s.cache name with
     | none =>
       simp only []
@@ -53,16 +56,16 @@ theorem loadCached_eq_fresh (parse : C → Option D) (hist : Str → Nat → Opt
         · rename_i hn; subst hn
           simp only [Option.some.injEq, Prod.mk.injEq] at he
           obtain ⟨rfl, rfl⟩ := he
-          exact ⟨hmt, f.content, hh, hp⟩
+          exact ⟨f.content, hh, hp⟩
         · exact h.entry n d' mt he
     | some e =>
       obtain ⟨d, cmt⟩ := e
-      simp only [hz, Bool.false_or]
+      simp only [Bool.false_or]
       by_cases heq : cmt = f.mtime
       · -- same mtime: the entry was made from this very content
         have hb : (cmt == f.mtime) = true := by simpa using heq
         simp only [hb, ↓reduceIte]
-        obtain ⟨_, c, hcq, hpd⟩ := h.entry name d cmt hc
+        obtain ⟨c, hcq, hpd⟩ := h.entry name d cmt hc
         rw [heq, hh] at hcq
         cases hcq
         exact ⟨hpd.symm, ⟨h.entry, h.file⟩⟩
@@ -78,18 +81,18 @@ theorem loadCached_eq_fresh (parse : C → Option D) (hist : Str → Nat → Opt
           · rename_i hn; subst hn
             simp only [Option.some.injEq, Prod.mk.injEq] at he
             obtain ⟨rfl, rfl⟩ := he
-            exact ⟨hmt, f.content, hh, hp⟩
+            exact ⟨f.content, hh, hp⟩
           · exact h.entry n d' mt he
 
-/-- a history respects the cache's proviso: every write of file `n` carries a non-zero mtime under which `n` never had OTHER content -/
+/-- a history respects the cache's proviso: every write of file `n` carries an mtime under which `n` never had OTHER content (zero included) -/
 def WFHist : (Str → Nat → Option C) → List (Op C) → Prop
   | _, [] => True
-  | hist, .write n c mt :: r => mt ≠ 0 ∧ (hist n mt = none ∨ hist n mt = some c) ∧ WFHist (fun n' mt' => if n' = n ∧ mt' = mt then some c else hist n' mt') r
+  | hist, .write n c mt :: r => (hist n mt = none ∨ hist n mt = some c) ∧ WFHist (fun n' mt' => if n' = n ∧ mt' = mt then some c else hist n' mt') r
   | hist, _ :: r => WFHist hist r
 
-def outputs (parse : C → Option D) (miss : Bool) : State C D → List (Op C) → List (Option D)
+def outputs (parse : C → Option D) (miss zeroHit : Bool) : State C D → List (Op C) → List (Option D)
   | _, [] => []
-  | s, op :: r => match step parse miss s op with | (s', some o) => o :: outputs parse miss s' r | (s', none) => outputs parse miss s' r
+  | s, op :: r => match step parse miss zeroHit s op with | (s', some o) => o :: outputs parse miss zeroHit s' r | (s', none) => outputs parse miss zeroHit s' r
 
 /-- what fresh engines would render at the same points of the history -/
 def freshOutputs (parse : C → Option D) : FS C → List (Op C) → List (Option D)
@@ -101,7 +104,7 @@ def freshOutputs (parse : C → Option D) : FS C → List (Op C) → List (Optio
 /-- (2) MAIN THEOREM: at every point of ANY history the long-lived engine renders exactly what a newly created engine renders from the current files -/
 theorem cached_eq_fresh (parse : C → Option D) (ops : List (Op C)) :
     ∀ (hist : Str → Nat → Option C) (s : State C D), Inv parse hist s → WFHist hist ops →
-      outputs parse true s ops = freshOutputs parse s.fs ops := by
+      outputs parse true false s ops = freshOutputs parse s.fs ops := by
   induction ops with
   | nil => intro hist s _ _; rfl
   | cons op r ih =>
@@ -109,13 +112,13 @@ theorem cached_eq_fresh (parse : C → Option D) (ops : List (Op C)) :
     cases op with
     | write n c mt =>
       simp only [WFHist] at hwf
-      obtain ⟨hmt, hnew, hr⟩ := hwf
+      obtain ⟨hnew, hr⟩ := hwf
       simp only [outputs, step, freshOutputs]
       apply ih _ _ _ hr
       constructor
       · intro n' d mt' he
-        obtain ⟨h1, c', hc', hp⟩ := hinv.entry n' d mt' he
-        refine ⟨h1, c', ?_, hp⟩
+        obtain ⟨c', hc', hp⟩ := hinv.entry n' d mt' he
+        refine ⟨c', ?_, hp⟩
         by_cases hk : n' = n ∧ mt' = mt
         · obtain ⟨rfl, rfl⟩ := hk
           simp only [and_self, ↓reduceIte]
@@ -128,9 +131,8 @@ theorem cached_eq_fresh (parse : C → Option D) (ops : List (Op C)) :
         split at hf
         · rename_i hn; subst hn
           simp only [Option.some.injEq] at hf; subst hf
-          exact ⟨hmt, by simp⟩
-        · obtain ⟨h1, h2⟩ := hinv.file n' f hf
-          refine ⟨h1, ?_⟩
+          simp
+        · have h2 := hinv.file n' f hf
           by_cases hk : n' = n ∧ f.mtime = mt
           · exact absurd hk.1 (by assumption)
           · simp only [hk, ↓reduceIte]; exact h2
@@ -154,13 +156,12 @@ theorem cached_eq_fresh (parse : C → Option D) (ops : List (Op C)) :
       exact ih hist _ h2 hwf
 
 /-- a newly started engine satisfies the invariant (empty cache; `hist` is what the files hold now) -/
-theorem init_inv (parse : C → Option D) (fs : FS C) (hz : ∀ n f, fs n = some f → f.mtime ≠ 0) :
+theorem init_inv (parse : C → Option D) (fs : FS C) :
     Inv parse (fun n mt => match fs n with | some f => if f.mtime = mt then some f.content else none | none => none) { fs := fs, cache := fun _ => none } := by
   constructor
   · intro n d mt he; cases he
   · intro n f hf
     have hf : fs n = some f := hf
-    refine ⟨hz n f hf, ?_⟩
     show (match fs n with | some f' => if f'.mtime = f.mtime then some f'.content else none | none => none) = some f.content
     rw [hf]; simp
 
@@ -168,12 +169,22 @@ theorem init_inv (parse : C → Option D) (fs : FS C) (hz : ∀ n f, fs n = some
 theorem stat_failure_hit_counterexample :
     let parse : Nat → Option Nat := some
     let s0 : State Nat Nat := { fs := fun n => if n = ['p'] then some { content := 7, mtime := 5 } else none, cache := fun _ => none }
-    outputs parse false s0 [.render ['p'], .delete ['p'], .render ['p']] = [some 7, some 7] ∧
+    outputs parse false true s0 [.render ['p'], .delete ['p'], .render ['p']] = [some 7, some 7] ∧
     freshOutputs parse s0.fs [.render ['p'], .delete ['p'], .render ['p']] = [some 7, none] := by
   constructor <;> rfl
 
-/-! non-vacuity: an edit / invalidate / recreate history satisfying the proviso -/
-example : WFHist (fun _ _ => (none : Option Nat)) [.write ['p'] 1 10, .render ['p'], .write ['p'] 2 11, .render ['p'], .delete ['p'], .render ['p'], .write ['p'] 3 9, .render ['p']] := by
+/-- the pinned rule "a current modification time of zero answers from any entry" is genuinely wrong: a file replaced by one without a
+    modification time — the user's override deleted from the upper layer of an overlay, the embedded default (zero time) showing through — was
+    served from the stale entry for ever (fix `4453083`); with the repaired rule the same history agrees with a fresh engine -/
+theorem zero_mtime_hit_counterexample :
+    let parse : Nat → Option Nat := some
+    let s0 : State Nat Nat := { fs := fun n => if n = ['p'] then some { content := 7, mtime := 5 } else none, cache := fun _ => none }
+    let h : List (Op Nat) := [.render ['p'], .write ['p'] 1 0, .render ['p']]
+    outputs parse true true s0 h = [some 7, some 7] ∧ outputs parse true false s0 h = [some 7, some 1] ∧ freshOutputs parse s0.fs h = [some 7, some 1] := by
+  refine ⟨?_, ?_, ?_⟩ <;> rfl
+
+/-! non-vacuity: an edit / invalidate / recreate history satisfying the proviso (the last write carries the zero time) -/
+example : WFHist (fun _ _ => (none : Option Nat)) [.write ['p'] 1 10, .render ['p'], .write ['p'] 2 11, .render ['p'], .delete ['p'], .render ['p'],   .write ['p'] 3 9, .render ['p'], .write ['p'] 4 0, .render ['p']] := by
   simp [WFHist]
 
 end Vuego.Props.C15
